@@ -674,9 +674,7 @@ def run(ctx):
     from . import C09
     # (C09.R3/R4 build side: an alternative or element that fails while building leaves nothing behind in the output, or parsing the bytes sees the debris)
     for mod, rules in ((C10, ("C10.R1", "C10.R2", "C10.R4", "C10.R6")), (C15, ("C15.R1", "C15.R2", "C15.R4", "C15.R6", "C15.R7")), (C09, ("C09.R3", "C09.R4"))):
-        sub = _Ctx(mod.__name__.split(".")[-1], ctx.tier, ctx.root, model=ctx.model)
-        sub._summ = summariser(ctx)
-        mod.run(sub)
+        sub = shared_run(ctx, mod)
         for e in sub.errors:
             ctx.error("shared %s rules: %s" % (sub.prop, e))
         for o in sub.obligations:
@@ -685,9 +683,7 @@ def run(ctx):
     from . import C02, C05, C16
     C02.position_adapters(ctx, "C01.R7")       # Slicing / Indexing put the object back where parse took it
     C05.probe_specificity(ctx, "C01.R7")       # lazy wrappers skip by a probe that is as specific as the class's size
-    sub = _Ctx("C16", ctx.tier, ctx.root, model=ctx.model)
-    sub._summ = summariser(ctx)
-    C16.run(sub)
+    sub = shared_run(ctx, C16, prop="C16")
     for e in sub.errors:
         ctx.error("shared C16 rules: " + e)
     for o in sub.obligations:
